@@ -36,8 +36,8 @@ TIER = {
         smoind=[4],
         xc_kfold=dict(MaxN=6, MaxF=2, MaxT=2, MaxM=2),
         xc_smo=[3],
-        sens_idx=["copyblock", "wrongfold"], sens_ind=["flattargets"], sens_smo=["nobounds", "inverse"],
-        sens_tlaps=[("SmoProofs", "staticloop")], sens_only=["idx_step", "ind_step", "smo_step"],
+        sens_idx=["copyblock"], sens_ind=["flattargets"], sens_smo=["nobounds"],
+        sens_tlaps=[], sens_only=["idx_step", "ind_step", "smo_step"],
         par=8, apa_timeout=600),
     "thorough": dict(
         kfoldind=[dict(MaxN=4, MaxF=3, MaxT=3, MaxM=3), dict(MaxN=6, MaxF=2, MaxT=2, MaxM=2),
@@ -149,26 +149,41 @@ def run_tlapm(ctx, module, deps, timeout=900, variant="ok"):
             raise vlib.ToolError("proof module %s has no assumption Variant = \"ok\"" % module)
         with open(pm, "w") as f:
             f.write(txt.replace('Variant = "ok"', 'Variant = "%s"' % variant))
-    cmd = ["tlapm", "--cleanfp", module + ".tla"]
     t = time.time()
     res = dict(name="tlaps_%s_%s" % (module, variant), module=module, tool="tlapm", variant=variant,
-               cmd="tlapm --cleanfp specs/%s.tla" % module)
-    try:
-        p = subprocess.run(cmd, cwd=d, stdout=subprocess.PIPE, stderr=subprocess.STDOUT, text=True, timeout=timeout)
-        out = p.stdout
-    except subprocess.TimeoutExpired:
-        res.update(status="timeout", secs=round(time.time() - t, 1), total=0, proved=0)
-        return res
+               cmd="tlapm --cleanfp --stretch 3 specs/%s.tla" % module)
+    # tlapm's back-ends work under time limits (z3 5 s, Zenon 10 s, Isabelle 30 s, times --stretch): on a loaded machine
+    # an obligation can time out although it is provable.  Attempt 1 is a cold run with stretched limits; the obligations
+    # it could not prove are retried with much longer limits (the fingerprints of attempt 1 keep the proved ones).
+    # A model with a seeded bug (variant != "ok") is expected to fail: one attempt, normal limits.
+    attempts = [["tlapm", "--cleanfp", "--stretch", "3", module + ".tla"], ["tlapm", "--stretch", "12", module + ".tla"],
+                ["tlapm", "--stretch", "40", module + ".tla"]]
+    if variant != "ok":
+        attempts = [["tlapm", "--cleanfp", module + ".tla"]]
+    out = ""
+    for ai, cmd in enumerate(attempts):
+        try:
+            p = subprocess.run(cmd, cwd=d, stdout=subprocess.PIPE, stderr=subprocess.STDOUT, text=True, timeout=timeout)
+            out = p.stdout
+        except subprocess.TimeoutExpired:
+            res.update(status="timeout", secs=round(time.time() - t, 1), total=0, proved=0)
+            return res
+        with open(os.path.join(ctx.work, "tlaps_%s_%s.%d.out" % (module, variant, ai + 1)), "w") as f:
+            f.write(out)
+        if re.search(r"All (\d+) obligations? proved", out):
+            break
+        if ai + 1 < len(attempts):
+            vlib.log("tlapm %s: attempt %d left obligations unproved (back-end time limits?), retrying with longer limits" % (module, ai + 1))
+    res["attempts"] = ai + 1
     res["secs"] = round(time.time() - t, 1)
-    with open(os.path.join(ctx.work, "tlaps_%s_%s.out" % (module, variant)), "w") as f:
-        f.write(out)
     m = re.search(r"All (\d+) obligations? proved", out)
     if m:
         res.update(status="discharged", total=int(m.group(1)), proved=int(m.group(1)))
     else:
         m = re.search(r"(\d+)/(\d+) obligations failed", out)
         if m:
-            res.update(status="counterexample", total=int(m.group(2)), proved=int(m.group(2)) - int(m.group(1)),
+            # "unproved": the provers found no proof.  This is not a counterexample (tlapm cannot refute).
+            res.update(status="unproved", total=int(m.group(2)), proved=int(m.group(2)) - int(m.group(1)),
                        violated="%s of %s proof obligations not proved" % (m.group(1), m.group(2)))
             res["tail"] = "\n".join(l for l in out.splitlines() if "ERROR" in l or "PROVE" in l)[:1500]
         else:
@@ -304,7 +319,7 @@ class CrossMismatch(Exception):
 # ---------------------------------------------------------------------------------------------- run
 def violation(ctx, ob):
     case = {"id": ob["name"], "kind": "obligation",
-            "inp": {k: ob.get(k) for k in ("module", "tool", "consts", "init", "inv", "length", "scope", "cmd")},
+            "inp": {k: ob.get(k) for k in ("module", "tool", "variant", "consts", "init", "inv", "length", "scope", "cmd")},
             "ev": [{"ev": ob["status"], "what": ob.get("violated", ""), "counterexample": ob.get("cex", ""),
                     "detail": ob.get("tail", "")}]}
     vlib.record_violation(ctx, case, ["obligation %s not discharged: %s %s" % (ob["name"], ob["status"], ob.get("violated", ""))])
@@ -351,16 +366,19 @@ def run(ctx):
     order = sorted(main + sens, key=lambda o: (-o["length"], o["module"] != "KFoldInd", o["name"]))
     tl = []
     with ThreadPoolExecutor(max_workers=t["par"]) as ex:
-        futs = [ex.submit(run_apalache, ctx, o, t["apa_timeout"]) for o in order]
+        futs = []
+        # the proof modules first (many small prover calls), then the Apalache runs, longest first
         if variant == "ok":
-            for mod, deps in PROOF_MODULES:
+            for mod, deps in sorted(PROOF_MODULES, key=lambda m: m[0] != "KFoldIndProofs"):
                 futs.append(ex.submit(run_tlapm, ctx, mod, deps))
-            for mod, v in t["sens_tlaps"]:
-                futs.append(ex.submit(run_tlapm, ctx, mod, dict(PROOF_MODULES)[mod], 900, v))
         elif kfv in ("copyblock", "flattargets", "wrongfold"):
             futs.append(ex.submit(run_tlapm, ctx, "KFoldIndProofs", dict(PROOF_MODULES)["KFoldIndProofs"], 900, kfv))
         elif smv != "ok":
             futs.append(ex.submit(run_tlapm, ctx, "SmoProofs", dict(PROOF_MODULES)["SmoProofs"], 900, smv))
+        futs += [ex.submit(run_apalache, ctx, o, t["apa_timeout"]) for o in order]
+        if variant == "ok":
+            for mod, v in t["sens_tlaps"]:
+                futs.append(ex.submit(run_tlapm, ctx, mod, dict(PROOF_MODULES)[mod], 900, v))
         # the TLC cross-check runs in this thread meanwhile
         xc = None
         xc_err = None
@@ -404,7 +422,7 @@ def run(ctx):
         if o["status"] in ("timeout", "error"):
             raise vlib.ToolError("sensitivity proof run %s not decided: %s\n%s" % (o["name"], o["status"], o.get("tail", "")))
         sens_res["%s/%s" % (o["module"], o["variant"])] = (
-            ["%s: %s" % (o["name"], o.get("violated", ""))] if o["status"] == "counterexample" else [])
+            ["%s: %s" % (o["name"], o.get("violated", ""))] if o["status"] in ("counterexample", "unproved") else [])
     missed = [k for k, v in sens_res.items() if not v]
     if missed:
         raise vlib.ToolError("seeded design bug(s) %s break no obligation: the inductive invariants are too weak" % missed)
@@ -431,9 +449,9 @@ def run(ctx):
         "discharged": discharged,
         "checker_cmd": "apalache-mc check --config=<constants>.cfg --init=IndInv --inv=IndInv --length=1 --no-deadlock specs/{KFoldIdx,KFoldInd,SmoInd}.tla "
                        "(and --init=Init --inv=IndInv --length=0, --init=IndInv --inv=Safety --length=0, lemma runs); "
-                       "tlapm --cleanfp specs/{%s}.tla; TLC cross-checks specs/XC_*.tla" % ",".join(o["module"] for o in tl),
+                       "tlapm --cleanfp --stretch 3 specs/{%s}.tla; TLC cross-checks specs/XC_*.tla" % ",".join(o["module"] for o in tl),
         "apalache_obligations": [{k: o.get(k) for k in ("name", "module", "scope", "init", "inv", "length", "status", "secs", "enabled", "transitions")} for o in main],
-        "tlaps_modules": [{k: o.get(k) for k in ("module", "status", "proved", "total", "theorems", "secs")} for o in tl],
+        "tlaps_modules": [{k: o.get(k) for k in ("module", "status", "proved", "total", "attempts", "theorems", "secs")} for o in tl],
         "cross_check": xc,
         "sensitivity": sens_res,
         "variant": variant,
@@ -455,7 +473,7 @@ def replay(ctx, case):
     if inp.get("tool") == "tlapm":
         mod = inp["module"]
         deps = dict(PROOF_MODULES)[mod]
-        o = run_tlapm(ctx, mod, deps)
+        o = run_tlapm(ctx, mod, deps, 900, inp.get("variant") or "ok")
     elif inp.get("tool") == "tlc":
         try:
             cross_check(ctx, TIER[ctx.tier])
